@@ -2,6 +2,7 @@
 import itertools
 import vf.hx as hx
 from vf.spec import X, K
+from vf.stubs import patched_pandas, NULL_LOGGER
 from ECAgent.Core import Model
 import ECAgent.Environments as Env
 
@@ -17,10 +18,10 @@ def k_neighbours_id_centre(ctx):
 
 
 def _world(shape):
-    env = Env.DiscreteWorld.__new__(Env.DiscreteWorld)
-    env.width, env.height, env.depth = shape
-    env.cells = None
-    return env
+    """a world built by the REAL constructor (so that whatever state __init__ sets up exists); only pandas is the
+    contract stand-in of vf.stubs"""
+    with patched_pandas():
+        return Env.DiscreteWorld(Model(logger=NULL_LOGGER), *shape)
 
 
 def _ball(kind, shape, c, r, incl, as_id):
@@ -68,6 +69,41 @@ def x_neighbours(cx: int, cy: int, cz: int, r: int, incl: bool, as_id: bool) -> 
     for a, b in zip(got, exp):
         if a != b:
             return hx.end(hx.fail("neighbour list", kind=kind, shape=shape, centre=(cx, cy, cz), r=r, got=got, exp=exp))
+    return hx.end(True)
+
+
+def x_component_centre(x1: int, y1: int, incl: bool, as_id: bool) -> bool:
+    """
+    pre: 0 <= x1 < 4 and 0 <= y1 < 3
+    post: _
+    """
+    # a position component as centre, queried, then moved to another cell and queried again with the same object:
+    # every answer is the ball around the cell the component denotes AT THAT MOMENT (fractional in-cell offsets)
+    hx.begin()
+    kind = hx.P['kind']
+    shape = (4, 3, 0)
+    env = _world(shape)
+    fn = env.get_moore_neighbours if kind == 'moore' else env.get_neumann_neighbours
+    rt = int if as_id else tuple
+    fx, fy = hx.P['frac']
+    cx0, cy0 = hx.P['start']            # first cell and radius chosen by the partition, second cell by the solver
+    r = hx.P['r']
+    cx1 = 0 if x1 == 0 else 1 if x1 == 1 else 2 if x1 == 2 else 3
+    cy1 = 0 if y1 == 0 else 1 if y1 == 1 else 2
+    pc = Env.PositionComponent(None, None, cx0 + fx, cy0 + fy, 0.0)
+    first = fn(pc, r, incl, rt)
+    if list(first) != _ball(kind, shape, (cx0, cy0, 0), r, incl, as_id):
+        return hx.end(hx.fail("neighbourhood of a position-component centre", centre=(cx0 + fx, cy0 + fy), got=first))
+    pc.x, pc.y = cx1 + fx, cy1 + fy
+    if (cx0, cy0) != (cx1, cy1):
+        hx.reach('moved')
+    second = fn(pc, r, incl, rt)
+    if list(second) != _ball(kind, shape, (cx1, cy1, 0), r, incl, as_id):
+        return hx.end(hx.fail("neighbourhood after the position component moved", old=(cx0, cy0), new=(cx1, cy1), got=second,
+                              exp=_ball(kind, shape, (cx1, cy1, 0), r, incl, as_id)))
+    # the generic entry point agrees
+    if list(env.get_neighbours(pc, r, incl, rt, kind)) != list(second):
+        return hx.end(hx.fail("generic entry point differs"))
     return hx.end(True)
 
 
@@ -144,5 +180,10 @@ def obligations(tier):
           parts=[{"kind": k, "N": NI, "ret": rt} for k in ("moore", "neumann") for rt in ("tuple", "int")], timeout=300, encoded=enc[:4]),
         X("x_neighbours", x_neighbours, parts=[{"shape": list(s), "kind": k, "R": 1 if tier == "quick" else 2} for s in shapes for k in ("moore", "neumann")],
           labels=("nonempty",), timeout=900, group=1, encoded=enc[:2]),
+        X("x_component_centre", x_component_centre,
+          parts=[{"kind": k, "frac": f, "start": st, "r": rr} for k in ("moore", "neumann")
+                 for f, st, rr in (([0.0, 0.0], [1, 1], 1), ([0.5, 0.25], [3, 2], 1), ([0.99, 0.01], [0, 0], 2 if tier != "quick" else 0))],
+          labels=("moved",), timeout=900, encoded=enc[:3],
+          bounds={"world": "4x3 grid", "first cell, radius, in-cell offset": "3 concrete combinations", "second cell": "any"}),
         X("dispatch", dispatch, labels=("modes", "bad_mode", "bad_ret_type"), timeout=600, encoded=enc[4:] + enc[:2]),
     ]
